@@ -1,6 +1,7 @@
 package main
 
 import (
+	"os"
 	"fmt"
 	"go/types"
 	"strings"
@@ -266,7 +267,8 @@ func (vc *VC) dryRunLoop(fr *frame, header *ssa.BasicBlock, st *State, checkpoin
 	vc.normalizeWrites(w, checkpoint)
 	// propagate to an enclosing dry run
 	if saved != nil {
-		for comp, ws := range w {
+		for _, comp := range sortedKeys(w) {
+			ws := w[comp]
 			if ws.whole {
 				vc.noteWrite(comp, Term{})
 			}
@@ -361,7 +363,8 @@ func (vc *VC) havocWrites(st *State, w map[string]*writeSet) {
 	var targets []modTarget
 	var freshComps []string
 	allocates := false
-	for comp, ws := range w {
+	for _, comp := range sortedKeys(w) {
+		ws := w[comp]
 		if comp == allocComp {
 			allocates = true
 			continue
@@ -403,6 +406,34 @@ func (vc *VC) execRegion(fr *frame, start *ssa.BasicBlock, region map[*ssa.Basic
 			}
 			ins = incoming[b]
 			if len(ins) == 0 {
+				continue
+			}
+			// a return block reached over several edges is executed once per edge (one level of path
+			// splitting): postconditions are then checked against each incoming state instead of an
+			// ite-merged heap, which keeps the incoming heap versions visible to quantifier instantiation.
+			if _, isRet := b.Instrs[len(b.Instrs)-1].(*ssa.Return); isRet && fr.top && os.Getenv("GOVC_NOSPLIT") == "" && len(ins) > 1 && len(ins) <= 12 && !isLoopHeader(b) && vc.dry == 0 {
+				for _, in := range ins {
+					est := &State{pc: in.cond, heap: in.st.heap.Clone()}
+					pi := predIndex(b, in.from)
+					for _, instr := range b.Instrs {
+						phi, ok := instr.(*ssa.Phi)
+						if !ok {
+							break
+						}
+						fr.env[phi] = vc.valueOf(fr, phi.Edges[pi])
+					}
+					term := vc.execInstrs(fr, b, est)
+					if t, ok := term.(*ssa.Return); ok {
+						var vals []Value
+						for _, r := range t.Results {
+							vals = append(vals, vc.valueOf(fr, r))
+						}
+						if fr.top {
+							vc.atReturn(fr, est, vals, t)
+						}
+						rets = append(rets, retRec{est, vals})
+					}
+				}
 				continue
 			}
 			var conds []Term
